@@ -133,6 +133,9 @@ func Gen(r *rand.Rand, cfg Cfg) *ast.Grammar {
 		if cfg.Compilable && !cfg.Avoid.OptMerge {
 			repairOptimizerShapes(g)
 		}
+		if cfg.Compilable && !cfg.Avoid.OptDupLabels {
+			repairDoubleInlining(g)
+		}
 		fillCode(r, g, cfg)
 		return g
 	}
